@@ -10,7 +10,14 @@ import (
 	"github.com/apmckinlay/gsuneido/verifshim/vsched"
 )
 
+// Override, when set, answers every draw (used by harnesses that enumerate
+// the outcomes themselves without the scheduler).
+var Override func(n int) int
+
 func IntN(n int) int {
+	if Override != nil {
+		return Override(n)
+	}
 	if !vsched.Active() {
 		return rand.IntN(n)
 	}
